@@ -47,7 +47,11 @@ func main() {
 		}
 		out(m)
 	case "ssdial":
-		ssdial(dir, os.Args[3])
+		addr := "192.0.2.1:443"
+		if len(os.Args) > 4 { // a second, third ... bridge: the store keeps one ticket per bridge address
+			addr = "192.0.2." + os.Args[4] + ":443"
+		}
+		ssdial(dir, os.Args[3], addr)
 	}
 }
 
@@ -94,7 +98,7 @@ func start(dir string, kv []string) {
 	out(m)
 }
 
-func ssdial(dir, mode string) {
+func ssdial(dir, mode, addr string) {
 	cf, err := (&scramblesuit.Transport{}).ClientFactory(dir)
 	if err != nil {
 		out(map[string]interface{}{"ok": false, "stage": "factory", "err": err.Error()})
@@ -111,6 +115,9 @@ func ssdial(dir, mode string) {
 		return
 	}
 	l := wire.NewLink(true, 0)
+	if ta, err := net.ResolveTCPAddr("tcp", addr); err == nil { // the ticket store is keyed by the connection's remote address
+		l.A.SetAddrs(nil, ta)
+	}
 	srv := refss.NewServer(secret, rand.Reader)
 	type res struct {
 		c   *refss.Conn
@@ -121,7 +128,7 @@ func ssdial(dir, mode string) {
 		c, err := srv.Accept(l.B, 100, nil)
 		ch <- res{c, err}
 	}()
-	conn, err := cf.Dial("tcp", "192.0.2.1:443", func(string, string) (net.Conn, error) { return l.A, nil }, args)
+	conn, err := cf.Dial("tcp", addr, func(string, string) (net.Conn, error) { return l.A, nil }, args)
 	if err != nil {
 		out(map[string]interface{}{"ok": false, "stage": "dial", "err": err.Error()})
 		return
